@@ -224,19 +224,24 @@ theorem elabItem_wf {T : Tables} {ap core : Bool} {R R' : Reg} {it : Item} (hT :
     simp only [elabItem] at h
     split at h
     · simp at h
-    · rename_i fs hfs
-      split at h
+    · split at h
       · simp at h
-      · rename_i fs' al sz hl
-        simp at h; subst h
-        have := layoutDef_wf (specFields_wf hT hR hfs) hl
-        refine ⟨hR.al, hR.st, ?_⟩
-        intro d hd; simp at hd
-        rcases hd with hd | rfl
-        · exact hR.ms d hd
-        · exact this
+      · rename_i fs hfs
+        split at h
+        · simp at h
+        · rename_i fs' al sz hl
+          simp at h; subst h
+          have := layoutDef_wf (specFields_wf hT hR hfs) hl
+          refine ⟨hR.al, hR.st, ?_⟩
+          intro d hd; simp at hd
+          rcases hd with hd | rfl
+          · exact hR.ms d hd
+          · exact this
   | signal n id hsh =>
-    simp [elabItem] at h; subst h
+    simp only [elabItem] at h
+    split at h
+    · simp at h
+    simp at h; subst h
     refine ⟨hR.al, hR.st, ?_⟩
     intro d hd; simp at hd
     rcases hd with hd | rfl
@@ -397,18 +402,23 @@ theorem elabItem_layout {T : Tables} {ap core : Bool} {R R' : Reg} {it : Item} (
     simp only [elabItem] at h
     split at h
     · simp at h
-    · rename_i fs hfs
-      split at h
+    · split at h
       · simp at h
-      · rename_i fs' al sz hl
-        simp at h; subst h
-        refine ⟨hL.1, ?_⟩
-        intro d hd; simp at hd
-        rcases hd with hd | rfl
-        · exact hL.2 d hd
-        · exact layoutOk_of (layoutDef_layout (specFields_wf hT hR hfs) hl)
+      · rename_i fs hfs
+        split at h
+        · simp at h
+        · rename_i fs' al sz hl
+          simp at h; subst h
+          refine ⟨hL.1, ?_⟩
+          intro d hd; simp at hd
+          rcases hd with hd | rfl
+          · exact hL.2 d hd
+          · exact layoutOk_of (layoutDef_layout (specFields_wf hT hR hfs) hl)
   | signal n id hsh =>
-    simp [elabItem] at h; subst h
+    simp only [elabItem] at h
+    split at h
+    · simp at h
+    simp at h; subst h
     refine ⟨hL.1, ?_⟩
     intro d hd; simp at hd
     rcases hd with hd | rfl
